@@ -220,7 +220,18 @@ func (env *Env) assignGhost(target string, v Val, st *State) {
 }
 
 // selectHook: obligations about select statements are expressed with `at` clauses; nothing automatic.
-func (fr *Frame) selectHook(x *ssa.Select, idx T, reach T, st *State) {}
+func (fr *Frame) selectHook(x *ssa.Select, idx T, reach T, st *State) {
+	// `at select N before assert waitsOn(ch)`: the channels the select waits to receive from are bound as a set
+	var chans []T
+	for _, s := range x.States {
+		if s.Dir == types.RecvOnly {
+			chans = append(chans, fr.val(s.Chan))
+		}
+	}
+	fr.selWaits = chans
+	fr.ghostAt("select", fr.selOrd[x], "select", "before", reach, st, map[string]Val{"arg0": {t: intLit(int64(len(x.States))), typ: types.Typ[types.Int]}})
+	fr.selWaits = nil
+}
 
 // ---------------------------------------------------------------------------
 
